@@ -46,10 +46,42 @@ type selRes struct {
 	Path  []int  `json:"path"`
 	Ind   bool   `json:"ind"`
 }
+// selWhere qualifies a finding key by where Go finds the member: the type's own member or a promoted one (the builder's
+// depth-first walk only goes wrong for promoted members; a change that breaks own members must not hide behind it)
+func selWhere(s selRes) string {
+	switch s.K {
+	case "field", "method", "needaddr":
+		if s.Owner == "R" {
+			return " [Go: own member]"
+		}
+		return " [Go: promoted]"
+	}
+	return ""
+}
+
 type selCase struct {
 	G   map[string]selDef            `json:"g"`
 	Q   []string                     `json:"q"`
 	Res map[string]map[string]selRes `json:"res"`
+	// "std" | "dual" (Select.tla Naming); the realisation "uni" of std graphs gives the exported names a non-ASCII capital
+	Naming string `json:"naming"`
+}
+
+// nm realises a name of the specification: std keeps x and A, B, C; dual exports the member (X) and hides the type names
+// (a, b, c); uni is std with exported names that start with a non-ASCII upper-case letter (Äa: still exported in Go)
+func (w *selWorld) nm(s string) string {
+	switch w.naming {
+	case "dual":
+		if s == "x" {
+			return "X"
+		}
+		return strings.ToLower(s)
+	case "uni":
+		if s != "x" {
+			return "Ä" + strings.ToLower(s)
+		}
+	}
+	return s
 }
 
 type selRecorder struct{ obj types.Object }
@@ -70,6 +102,7 @@ type selWorld struct {
 	// delay-loaded realisation: the types have no underlying type until Config.LoadNamed runs their loader
 	lazy    bool
 	loaders map[*types.Named]func()
+	naming  string
 }
 
 func (w *selWorld) loadAll() {
@@ -101,6 +134,11 @@ func newSelWorld() *selWorld {
 // struct, not A's methods): lookups must not confuse the two types.
 func (w *selWorld) realise(c selCase, shared ...bool) {
 	share := len(shared) > 0 && shared[0]
+	if c.Naming == "dual" {
+		w.naming = "dual"
+	} else if w.naming == "dual" {
+		w.naming = ""
+	}
 	structOf := map[string]*types.Struct{}
 	inQ := map[string]bool{}
 	for _, t := range c.Q {
@@ -116,7 +154,7 @@ func (w *selWorld) realise(c selCase, shared ...bool) {
 	w.meths = map[string]*types.Func{}
 	names := []string{"R", "A", "B", "C"}
 	for _, t := range names {
-		w.named[t] = types.NewNamed(types.NewTypeName(token.NoPos, pkgOf(t), t, nil), nil, nil)
+		w.named[t] = types.NewNamed(types.NewTypeName(token.NoPos, pkgOf(t), w.nm(t), nil), nil, nil)
 	}
 	for _, t := range names {
 		d := c.G[t]
@@ -127,13 +165,13 @@ func (w *selWorld) realise(c selCase, shared ...bool) {
 				if f.Ptr {
 					ft = types.NewPointer(ft)
 				}
-				fs = append(fs, types.NewField(token.NoPos, pkgOf(t), f.To, ft, true))
+				fs = append(fs, types.NewField(token.NoPos, pkgOf(t), w.nm(f.To), ft, true))
 			} else {
 				ft := types.Typ[types.Int]
 				if f.Ty == "string" {
 					ft = types.Typ[types.String]
 				}
-				fs = append(fs, types.NewField(token.NoPos, pkgOf(t), f.Name, ft, false))
+				fs = append(fs, types.NewField(token.NoPos, pkgOf(t), w.nm(f.Name), ft, false))
 			}
 		}
 		key, _ := json.Marshal(d.Fields)
@@ -169,7 +207,7 @@ func (w *selWorld) realise(c selCase, shared ...bool) {
 				}
 				sig := types.NewSignatureType(types.NewVar(token.NoPos, pkgOf(t), "", rt), nil, nil, nil,
 					types.NewTuple(types.NewVar(token.NoPos, pkgOf(t), "", types.Typ[types.Int])), false)
-				fn := types.NewFunc(token.NoPos, pkgOf(t), "x", sig)
+				fn := types.NewFunc(token.NoPos, pkgOf(t), w.nm("x"), sig)
 				nt.AddMethod(fn)
 				w.meths[t] = fn
 			}
@@ -184,7 +222,7 @@ func (w *selWorld) realise(c selCase, shared ...bool) {
 		}
 		sig := types.NewSignatureType(types.NewVar(token.NoPos, pkgOf(t), "", rt), nil, nil, nil,
 			types.NewTuple(types.NewVar(token.NoPos, pkgOf(t), "", types.Typ[types.Int])), false)
-		fn := types.NewFunc(token.NoPos, pkgOf(t), "x", sig)
+		fn := types.NewFunc(token.NoPos, pkgOf(t), w.nm("x"), sig)
 		w.named[t].AddMethod(fn)
 		w.meths[t] = fn
 	}
@@ -255,7 +293,7 @@ func (w *selWorld) member(form, sel string, ref bool) (g selG) {
 	if ref {
 		flag = gogen.MemberFlagRef
 	}
-	kind, err := w.cb.Member(sel, 0, flag)
+	kind, err := w.cb.Member(w.nm(sel), 0, flag)
 	if err != nil {
 		return selG{kind: "rejected", msg: err.Error()}
 	}
@@ -315,6 +353,12 @@ func runC08(tier, replay string) {
 	var checkLazy func(w *selWorld, c selCase, only map[string]bool)
 	checkCase := func(w *selWorld, c selCase) {
 		checkCaseV(w, c, false)
+		if c.Naming != "dual" {
+			// the same graph with exported names that start with a non-ASCII capital letter
+			w.naming = "uni"
+			checkCaseV(w, c, false)
+			w.naming = ""
+		}
 		checkLazy(w, c, nil)
 		// two types of one package with equal field lists: once more with the two sharing one struct (type B A)
 		inQ := map[string]bool{}
@@ -367,7 +411,7 @@ func runC08(tier, replay string) {
 					bad = fmt.Sprintf("MemberVal/%s: Go=%s builder=%s-but-wrong-object(delay-loaded)", form, s.K, g.kind)
 				}
 				if bad != "" {
-					run.Fail(bad, fmt.Sprintf("selector %s on %s operand of type R: Go (Select.tla = go/types) says %s%s, the builder says %s %v %s; graph: %s [types delay-loaded through Config.LoadNamed; the selector is their first use]",
+					run.Fail(bad+selWhere(s), fmt.Sprintf("selector %s on %s operand of type R: Go (Select.tla = go/types) says %s%s, the builder says %s %v %s; graph: %s [types delay-loaded through Config.LoadNamed; the selector is their first use]",
 						sel, map[string]string{"v": "a non-addressable value", "a": "an addressable", "p": "a pointer"}[form], s.K, ownerStr(s), g.kind, g.obj, g.msg, selDescribe(c)),
 						map[string]any{"case": c, "sel": sel, "form": form, "lazy": true})
 				}
@@ -393,7 +437,7 @@ func runC08(tier, replay string) {
 				if form == "p" {
 					T = types.NewPointer(T)
 				}
-				obj, index, indirect := types.LookupFieldOrMethod(T, form == "a", w.pkg.Types, sel)
+				obj, index, indirect := types.LookupFieldOrMethod(T, form == "a", w.pkg.Types, w.nm(sel))
 				tk := "none"
 				switch {
 				case obj != nil:
@@ -415,7 +459,7 @@ func runC08(tier, replay string) {
 				if form != "a" {
 					mform := map[string]string{"v": "tv", "p": "tp"}[form]
 					ms := types.NewMethodSet(T)
-					inSet := ms.Lookup(w.pkg.Types, sel) != nil
+					inSet := ms.Lookup(w.pkg.Types, w.nm(sel)) != nil
 					if inSet != (s.K == "method") && s.K != "ambiguous" {
 						run.Infra(fmt.Errorf("Select.tla disagrees with go/types method sets (specification defect): (%s).%s S=%s T in-set=%v; %s", T, sel, s.K, inSet, selDescribe(c)))
 					}
@@ -453,7 +497,7 @@ func runC08(tier, replay string) {
 						}
 					}
 					if bad != "" {
-						run.Fail(bad, fmt.Sprintf("method expression (%s).%s: Go (Select.tla = go/types) says %s%s, the builder says %s type %v %s; graph: %s%s", T, sel, s.K, ownerStr(s), g.kind, g.typ, g.msg, selDescribe(c), suffix),
+						run.Fail(bad+selWhere(s), fmt.Sprintf("method expression (%s).%s: Go (Select.tla = go/types) says %s%s, the builder says %s type %v %s; graph: %s%s", T, sel, s.K, ownerStr(s), g.kind, g.typ, g.msg, selDescribe(c), suffix),
 							map[string]any{"case": c, "sel": sel, "form": mform, "shared": shared})
 					}
 				}
@@ -503,7 +547,7 @@ func runC08(tier, replay string) {
 						}
 					}
 					if bad != "" {
-						run.Fail(bad, fmt.Sprintf("selector %s on %s operand of type R: Go (Select.tla = go/types) says %s%s, the builder says %s %v %s; graph: %s%s",
+						run.Fail(bad+selWhere(s), fmt.Sprintf("selector %s on %s operand of type R: Go (Select.tla = go/types) says %s%s, the builder says %s %v %s; graph: %s%s",
 							sel, map[string]string{"v": "a non-addressable value", "a": "an addressable", "p": "a pointer"}[form], s.K, ownerStr(s), g.kind, g.obj, g.msg, selDescribe(c), suffix),
 							map[string]any{"case": c, "sel": sel, "form": form, "ref": ref, "shared": shared})
 					}
@@ -539,22 +583,29 @@ func runC08(tier, replay string) {
 		cfg  string
 		sim  int
 	}
-	mk := func(tn string, mf int, q, pt string, sim bool) string {
+	mk := func(tn string, mf int, q, pt string, sim bool, naming ...string) string {
+		nmg := "std"
+		if len(naming) > 0 {
+			nmg = naming[0]
+		}
 		s := "INIT Init\nNEXT Next\n"
 		if sim {
 			s = "INIT SimInit\nNEXT SimNext\n"
 		}
-		return s + fmt.Sprintf("CONSTANTS\n  TN = %s\n  MaxFields = %d\n  QChoices = %s\n  PlainTypes = %s\nINVARIANTS Laws Emit\nCHECK_DEADLOCK FALSE\n", tn, mf, q, pt)
+		return s + fmt.Sprintf("CONSTANTS\n  TN = %s\n  MaxFields = %d\n  QChoices = %s\n  PlainTypes = %s\n  Naming = %q\nINVARIANTS Laws Emit\nCHECK_DEADLOCK FALSE\n", tn, mf, q, pt, nmg)
 	}
 	confs := []conf{
 		{"RAB-1field-exhaustive", mk(`{"R","A","B"}`, 1, `{{}}`, `{"int"}`, false), 0},
 		{"RABC-2fields-2packages-sampled", mk(`{"R","A","B","C"}`, 2, `{{}, {"B"}, {"C"}, {"A","C"}}`, `{"int","string"}`, true), 2500},
+		{"RABC-2fields-2packages-dual-naming-sampled", mk(`{"R","A","B","C"}`, 2, `{{"B"}, {"C"}, {"A","C"}, {"A","B","C"}}`, `{"int","string"}`, true, "dual"), 1500},
 	}
 	if tier == "thorough" {
 		confs = []conf{
 			{"RAB-2fields-exhaustive", mk(`{"R","A","B"}`, 2, `{{}}`, `{"int"}`, false), 0},
 			{"RABC-1field-2packages-exhaustive", mk(`{"R","A","B","C"}`, 1, `{{}, {"B"}}`, `{"int"}`, false), 0},
 			{"RABC-2fields-2packages-sampled", mk(`{"R","A","B","C"}`, 2, `{{}, {"B"}, {"C"}, {"A","C"}}`, `{"int","string"}`, true), 60000},
+			{"RABC-1field-2packages-dual-naming-exhaustive", mk(`{"R","A","B","C"}`, 1, `{{"B"}, {"A","C"}}`, `{"int"}`, false, "dual"), 0},
+			{"RABC-2fields-2packages-dual-naming-sampled", mk(`{"R","A","B","C"}`, 2, `{{"B"}, {"C"}, {"A","C"}, {"A","B","C"}}`, `{"int","string"}`, true, "dual"), 30000},
 		}
 	}
 	var states, transitions, graphs int64
@@ -564,6 +615,7 @@ func runC08(tier, replay string) {
 		var wg sync.WaitGroup
 		sem := make(chan struct{}, 12)
 		var n int64
+		distinctGraphs := map[string]bool{}
 		flush := func(b []selCase) {
 			wg.Add(1)
 			sem <- struct{}{}
@@ -582,6 +634,9 @@ func runC08(tier, replay string) {
 					return
 				}
 				batch = append(batch, x)
+				if gk, err := json.Marshal(x.G); err == nil {
+					distinctGraphs[string(gk)+fmt.Sprint(x.Q)] = true
+				}
 				n++
 				if len(batch) >= 200 {
 					flush(batch)
@@ -611,6 +666,10 @@ func runC08(tier, replay string) {
 		if n == 0 {
 			run.Infra(fmt.Errorf("configuration %s generated no graph", c.name))
 		}
+		if c.sim > 0 && int64(len(distinctGraphs))*2 < n {
+			run.Infra(fmt.Errorf("vacuity: configuration %s sampled only %d distinct graphs in %d steps", c.name, len(distinctGraphs), n))
+		}
+		run.Set("distinct_graphs_"+c.name, len(distinctGraphs))
 		states += res.Distinct
 		transitions += res.Generated
 		graphs += n
@@ -635,7 +694,7 @@ func runC08(tier, replay string) {
 // selectForC03 reports, for property C03, selector lookups that both Go and the builder accept but for which
 // the builder reports another type (or notifies the recorder of another object) than Go assigns to the emitted selector.
 func selectForC03(run *ev.Run) (lookups int64) {
-	cfg := "INIT Init\nNEXT Next\nCONSTANTS\n  TN = {\"R\",\"A\",\"B\"}\n  MaxFields = 1\n  QChoices = {{}}\n  PlainTypes = {\"int\", \"string\"}\nINVARIANTS Laws Emit\nCHECK_DEADLOCK FALSE\n"
+	cfg := "INIT Init\nNEXT Next\nCONSTANTS\n  TN = {\"R\",\"A\",\"B\"}\n  MaxFields = 1\n  QChoices = {{}}\n  PlainTypes = {\"int\", \"string\"}\n  Naming = \"std\"\nINVARIANTS Laws Emit\nCHECK_DEADLOCK FALSE\n"
 	var cases []selCase
 	res, err := tlc.Run(tlc.Opts{SpecDir: SpecDir, Module: "Select", Cfg: cfg, Workers: 4, Heavy: true, Timeout: 20 * time.Minute,
 		OnJSON: func(l string) {
